@@ -70,7 +70,8 @@ CLAIMED.update({
 
 CMD_TIE = ('Tie: the commander model (Starter + Stopper + strategies + process synthesis) runs in lock-step with the real Starter / Stopper '
            'on generated configurations and event histories (every emitted start / stop request and forced state compared), constants regenerated '
-           'from the source; a Lean monitor written from the statement judges every request the IMPLEMENTATION emits.')
+           'from the source; exceptions of the implementation are lock-stepped too (the model says which class is raised where); the generator is versioned '
+           '(a corpus seed keeps its meaning); a Lean monitor written from the statement judges every request the IMPLEMENTATION emits.')
 CMD_TRUST = ('Trusted: Lean kernel, standard axioms, tools/extract.py, harness/cmdh.py, harness/simenv.py, Drv/Cmd.lean, Spec/Cmd.lean (monitor). ')
 CLAIMED.update({
  'C03': dict(
@@ -80,8 +81,10 @@ CLAIMED.update({
          'request (RUNNING / expected exit with wait_exit). ' + CMD_TIE,
     note='Partial: the ordering clause over whole executions (no start while a lower sequence is in flight or unhandled; nothing after ABORT/STOP; '
          'sequence 0 never started) is judged on the implementation by the Lean monitor and carried by the lock-step correspondence, not proved over '
-         'executions of the re-entrant commander; the application-level order is judged through in-flight requests only. One defect repaired '
-         '(85ee815: a time-out now applies the starting failure strategy). ' + CMD_TRUST,
+         'executions of the re-entrant commander. The automatic start (start_applications), the application-level order, the sequence-0 clause, the STOP '
+         'strategy (made concrete: the application must be asked to stop once in-flight starts end), instance losses, re-joins and process removals are generated '
+         'and judged. Known finding: stop-strategy-dropped-with-job (same root cause as C10:start-request-untracked; kernel-checked witness). Defects repaired: '
+         '85ee815 (time-out applies the failure strategy), c24ff19. ' + CMD_TRUST,
     technique='Lean 4 proofs on the commander decision functions + lock-step correspondence + Lean monitor on implementation traces',
     design='7 (C03)'),
  'C04': dict(
@@ -92,7 +95,10 @@ CLAIMED.update({
     note='Partial: that every EMITTED request comes from that choice (process_job glue, no duplicate request, no-resource => FATAL and nothing sent) '
          'is carried by the correspondence and judged by the monitor with set-based loads and Starter-wide pending requests. Known finding: '
          'overload-by-requests-of-other-jobs. Two defects repaired (08bf665 node members duplicated at re-handshake; 500ed30 re-entrant '
-         'Commander.next). SINGLE_INSTANCE / SINGLE_NODE distributions are not generated yet. ' + CMD_TRUST,
+         'Commander.next). SINGLE_INSTANCE / SINGLE_NODE distributions, the application-level identifiers rule, CHECKED instances, disability and removal events are '
+         'modelled, generated and judged; C04_single_node_target_enabled and C04_single_node_no_exception hold in full since repo fix a6190c1 (the instance is '
+         'chosen among the instances of the node that know and enable the program; before: TypeError / KeyError / disabled target, found by the lock-step). Known '
+         'findings (kernel-checked witnesses): not-rechecked (target decided at pick-up time used without re-check), single-process-application-load-checked. ' + CMD_TRUST,
     technique='Lean 4 proofs on the placement functions + lock-step correspondence + Lean monitor on implementation traces',
     design='7 (C04)'),
  'C09': dict(
@@ -101,7 +107,8 @@ CLAIMED.update({
          'give-up table of a stop request. ' + CMD_TIE,
     note='Partial: the ordering over whole executions is judged on the implementation by the monitor (known finding: '
          'higher-sequence-already-stopping-not-waited); the restart/shutdown clauses (order reaches the Master, exactly one Supervisor order per instance, '
-         'FINAL after the Stopper is idle) are covered by the cluster lock-step of C01/C02 (orders compared at every step) but have no theorem yet; the '
+         'FINAL after the Stopper is idle) are covered by the cluster lock-step of C01/C02 (orders compared at every step) but have no theorem yet; the whole-cluster '
+         'stop (Stopper.stop_applications: decreasing application stop_sequence) is generated and judged, with theorems C09_stop_all_apps / C09_application_pickup_highest; the '
          'delivery of the Master\'s last publication while its own Supervisor goes down is a thread race outside the model. ' + CMD_TRUST,
     technique='Lean 4 proofs on the Stopper decision functions + lock-step correspondence + Lean monitor on implementation traces',
     design='7 (C09)'),
@@ -112,7 +119,8 @@ CLAIMED.update({
          'only BACKOFF re-arms; DEFAULT_TICK_TIMEOUT and the tick period are regenerated from the source. ' + CMD_TIE,
     note='Partial: that every request in flight is actually submitted to those decisions at each periodic check is carried by the correspondence and '
          'judged by the monitor (known finding: start-request-untracked - a job dropped by a re-entrant Commander.next leaves requests unfollowed); '
-         'loss of the target instance (on_instances_invalidation) is not generated at this level yet. ' + CMD_TRUST,
+         'the loss of one or two target instances at any point of a job, re-joins and process removals are generated; two known findings on losses (lost-start-not-reported-'
+         'fatal, lost-stop-still-listed); defect repaired: c24ff19 (a request whose process was removed from the target raised at every tick and stopped the TICK). ' + CMD_TRUST,
     technique='Lean 4 proofs on the time-out decision functions + lock-step correspondence + Lean monitor on implementation traces',
     design='7 (C10)'),
  'C14': dict(
@@ -120,8 +128,11 @@ CLAIMED.update({
          'valid candidate; CONFIG takes the first valid one in declared order; LESS/MOST_LOADED leave no valid candidate with a strictly better '
          '(instance load, node load) key, LESS/MOST_LOADED_NODE none with a strictly better (node load, instance load) key; LOCAL only the requesting '
          'instance; a choice is made iff a valid candidate exists; pending requests raise both load figures. ' + CMD_TIE,
-    note='Partial: SINGLE_INSTANCE / SINGLE_NODE distributions are not modelled yet (clause judged by nothing: named here); the monitor judges '
-         'optimality relationally (ties free) with Starter-wide pending requests (known finding: not-optimal-by-requests-of-other-jobs). ' + CMD_TRUST,
+    note='Partial: SINGLE_INSTANCE / SINGLE_NODE are modelled, generated and judged, with theorems for every world (get_node optimal for the strategy, one target for a '
+         'SINGLE_INSTANCE application that carries the whole start sequence, all targets of a SINGLE_NODE application on the one node chosen, a command added later gets a '
+         'selected instance); the placement INSIDE the node is refuted for LESS_LOADED (load requests computed once before the loop: known finding single-node-placement-'
+         'not-refreshed, kernel-checked witness) and proved for single-program jobs; the monitor judges optimality relationally (ties free) with Starter-wide pending '
+         'requests (known finding: not-optimal-by-requests-of-other-jobs). Defect repaired: a6190c1. ' + CMD_TRUST,
     technique='Lean 4 proofs on the strategy functions + lock-step correspondence + relational Lean monitor on implementation traces',
     design='7 (C14)'),
  'C15': dict(
@@ -141,8 +152,9 @@ CLAIMED.update({
          'by all guards, fault codes as documented, a rejected call is a no-op, calls are served inside their documented states, end_sync needs USER, '
          'restart/shutdown without a Master answer BAD_SUPVISORS_STATE. Tie: translator + the COMPLETE method x scenario x Master/non-Master x '
          'parameter-class matrix on real instances brought to each state by real histories (exhaustive).',
-    note='Partial: two clauses refuted and kept as known findings (restart_application lacks the NOT_MANAGED check; start_args on a group namespec raises '
-         'AttributeError); three defects repaired (83a88a0, 3678d4d). That the real effects leave the real snapshot unchanged and the parameter-class '
+    note='Partial: one clause refuted and kept as known finding (restart_application lacks the NOT_MANAGED check: the unedited suite forbids the repair); C17_clean_faults '
+         '(no exception other than RPCError, every method / state / valuation) holds in full since repo fix 5b27e8c; defects repaired: 83a88a0, 3678d4d, 5b27e8c, f2037fb. '
+         'Wrongly TYPED parameters are outside the parameter classes (see C16 known finding ill-typed-parameter). That the real effects leave the real snapshot unchanged and the parameter-class '
          'oracle are judged, not proved. Trusted: tools/extract_rpc.py conventions, harness/c17.py, Drv/C17.lean.',
     technique='translator-generated guard table + Lean 4 decide proofs + exhaustive matrix on real instances',
     design='7 (C17)'),
@@ -193,7 +205,8 @@ CLAIMED.update({
          'predictions judge side-effect freedom on the implementation.',
     note='Partial: side-effect freedom is judged on the implementation (deep snapshot; defect 44b32b2 found and repaired) - the functional model cannot have '
          'side effects by construction; the general single-group equality needs a simulation proof between two runs of the re-entrant commander (not done). '
-         'Known finding: prediction-differs-from-real-start. test_start_process is not generated yet (same StarterModel path). Trusted: harness/c19.py, '
+         'Known finding: prediction-differs-from-real-start. Process predictions (test_start_processes) and forced states hiding the real state are generated; the snapshot '
+         'judge found and led to the repair of 2118682 (a prediction with the STOP strategy asked the real Stopper to stop the application). Trusted: harness/c19.py, '
          'harness/cmdh.py, Drv/Cmd.lean.',
     technique='Lean 4 kernel-checked refutation witness + model/implementation correspondence + snapshot judge on the implementation',
     design='7 (C19)'),
